@@ -1,10 +1,9 @@
-import PGA.Drv.C19
+import PGA.Drv.All
 /-! `pgadriver`: executes the model. One JSON request per input line, one JSON reply per
 output line, in order.  {"op": "<prop>.<name>", ...} ↦ reply | {"driver_error": msg}. -/
 open Lean
 
-def handlers : List (String → Json → Option (Except String Json)) :=
-  [PGA.Drv.C19.handle]
+def handlers : List (String → Json → Option (Except String Json)) := PGA.Drv.allHandlers
 
 def dispatch (line : String) : Json :=
   match Json.parse line with
